@@ -625,6 +625,7 @@ func paramLabel(fn *ssa.Function, i int) string {
 
 func shortType(t types.Type) string {
 	for {
+		t = types.Unalias(t)
 		switch x := t.(type) {
 		case *types.Pointer:
 			t = x.Elem()
